@@ -974,3 +974,258 @@ def length_is_measured_on_the_value(ctx):
                             ctx.undecided(key, n, f'`{src(e)}`: argument of len() not classified', f)
                     else:
                         ctx.undecided(key, n, f'compared quantity `{src(e)}` is not a len() call', f)
+
+
+# ---------------------------------------------------------------------------------------------------------------------
+# refusal sites: every reason the property gives for refusing a value has a test whose refusing side ALWAYS raises
+# (the mutation analysis of the checker showed that a deleted `raise` under an intact test went unnoticed)
+
+LOWER = {'min', 'minlen', 'minchars', 'minbytes'}
+UPPER = {'max', 'maxlen', 'maxchars', 'maxbytes'}
+DISCRETE = {'minlen', 'maxlen', 'minchars', 'maxchars', 'minbytes', 'maxbytes'}
+
+
+def _side_never_completes(cfg, tid, label):
+    """no normal exit of the function is reachable from the `label` side of test tid without raising"""
+    succ = [b for b, lab in cfg.succ[tid] if lab == label]
+    if not succ:
+        return False
+    r = set(succ) | cfg.reach(succ, exc=False)
+    return cfg.exit not in r
+
+
+def _limit_comparisons(test, props):
+    """[(prop, kind, strict)] for the comparisons of `test` with self.<prop>; kind = 'violating' | 'accepting'"""
+    out = []
+    subs = [test] if isinstance(test, (ast.Compare, ast.UnaryOp)) else []
+    if isinstance(test, ast.BoolOp):
+        subs = list(test.values)
+    for sub in subs:
+        for l, op, r in compare_ops(sub):
+            if op not in ('<', '<='):
+                continue
+            for prop in props:
+                me = f'self.{prop}'
+                lim_left = l == me or l.startswith(me + ' ') or l.endswith(' ' + me) or me in l.replace('(', ' ').replace(')', ' ').split()
+                lim_right = r == me or me in r.replace('(', ' ').replace(')', ' ').split()
+                if lim_left == lim_right:
+                    continue
+                # normalised: l op r  (op in <, <=)
+                if prop in LOWER:
+                    kind = 'accepting' if lim_left else 'violating'      # L <= X accepts ; X < L violates
+                else:
+                    kind = 'violating' if lim_left else 'accepting'      # U < X violates ; X <= U accepts
+                out.append((prop, kind, op == '<'))
+    return out
+
+
+@rule('C01.R11', min_instances=12)
+def refusing_side_of_every_limit_test_raises(ctx):
+    """for every comparison with a declared limit (min/max, minlen/maxlen, minchars/maxchars, minbytes/maxbytes) on the
+    validation path: the side on which the limit is violated never completes normally (it raises), and for the discrete
+    length limits the comparison has the right strictness (limits are inclusive: `size > max` refuses, `size >= max` would
+    refuse a value of exactly the declared length)"""
+    m = ctx.m
+    done = set()
+    for cname in CLASSES:
+        ci, res = _analyse_class(m, cname)
+        props = {a for q in m.mro(ci.qualname) for a, e in (m.classes[q].assigns.items() if q in m.classes else [])
+                 if a in LIMIT_PROPS and isinstance(e, ast.Call) and dotted(e.func) == 'Property'}
+        if not props:
+            continue
+        for meth in ('__call__', 'validate', 'check_type'):
+            ma = res.get(meth)
+            if ma is None or ma.f.qualname in done:
+                continue
+            done.add(ma.f.qualname)
+            cfg = ma.cfg
+            for t in cfg.nodes:
+                if t.kind != 'test':
+                    continue
+                cmps = _limit_comparisons(t.ast, props)
+                if not cmps:
+                    continue
+                ctx.analysed(ma.f)
+                kinds = {k for p, k, s in cmps}
+                names = '/'.join(sorted({p for p, k, s in cmps}))
+                key = f'{ma.f.qualname}:violating side of the {names} test raises'
+                if len(kinds) != 1:
+                    ctx.undecided(key, t.ast, f'`{src(t.ast)}` mixes accepting and violating comparisons', ma.f)
+                    continue
+                label = 'T' if kinds == {'violating'} else 'F'
+                ctx.check(_side_never_completes(cfg, t.id, label), key, t.ast, f'`{src(t.ast)}`: the {label} side ends in a raise',
+                          f'`{src(t.ast)}`: on the side where the limit is violated the method goes on and returns normally - '
+                          f'a value outside the declared {names} is accepted', ma.f)
+                for p, k, strict in cmps:
+                    if p in DISCRETE:
+                        right = strict if k == 'violating' else not strict
+                        ctx.check(right, f'{ma.f.qualname}:{p} is inclusive', t.ast, f'`{src(t.ast)}`',
+                                  f'`{src(t.ast)}` has the wrong strictness for the inclusive limit {p}: a value of exactly the declared length is refused '
+                                  '(or one element beyond it accepted)', ma.f)
+
+
+@rule('C01.R12', min_instances=12)
+def validation_never_falls_off_the_end(ctx):
+    """__call__ / validate / import_value return the validated value on every normal exit: no path reaches the end of the
+    function without a `return <value>` (a handler that forgets to re-raise, a deleted return) - the caller would receive
+    None for a refused or even for an accepted value"""
+    m = ctx.m
+    done = set()
+    for cname in CLASSES:
+        ci, res = _analyse_class(m, cname)
+        for meth in ('__call__', 'validate', 'import_value'):
+            ma = res.get(meth)
+            if ma is None or ma.f.qualname in done:
+                continue
+            done.add(ma.f.qualname)
+            f, cfg = ma.f, ma.cfg
+            ctx.analysed(f)
+            bad = []
+            for a, lab in cfg.pred.get(cfg.exit, []) if isinstance(cfg.pred.get(cfg.exit, []), list) else []:
+                node = cfg.nodes[a]
+                if lab == 'exc':
+                    continue
+                st = node.ast
+                if isinstance(st, ast.Return) and st.value is not None and not (isinstance(st.value, ast.Constant) and st.value.value is None):
+                    continue
+                bad.append(node)
+            ctx.check(not bad, f'{f.qualname}:every normal exit returns a value', bad[0].ast if bad and bad[0].ast is not None else f.node,
+                      'all normal exits are `return <value>`',
+                      f'a normal exit of {f.name} is not a `return <value>` (after `{src(bad[0].ast) if bad and bad[0].ast is not None else "?"}`): '
+                      'the caller gets None instead of a validated value or a bad-value error', f)
+
+
+@rule('C01.R13', min_instances=6)
+def structural_refusals(ctx):
+    """refusals that are not limit comparisons: tuple arity, superfluous and missing struct members, non-ASCII text in an
+    ASCII string type, an embedded NUL, a non-integral transport value of a scaled integer, the error class chosen for a
+    failing member - each has a test whose refusing side always raises"""
+    m = ctx.m
+    # -- tuple arity
+    ci, res = _analyse_class(m, 'TupleOf')
+    ma = res.get('check_type')
+    if ma is None:
+        raise AnchorMissing('TupleOf.check_type not found')
+    f, cfg, p = ma.f, ma.cfg, ma.param
+    ctx.analysed(f)
+    found = False
+    for t in cfg.nodes:
+        if t.kind != 'test':
+            continue
+        for l, op, r in compare_ops(t.ast):
+            if op in ('==', '!=') and {l, r} == {f'len({p})', 'len(self.members)'}:
+                found = True
+                ctx.check(_side_never_completes(cfg, t.id, 'T' if op == '!=' else 'F'), f'{f.qualname}:wrong arity is refused', t.ast,
+                          'the unequal side raises', f'`{src(t.ast)}`: a tuple with the wrong number of elements passes check_type (zip() then truncates silently)', f)
+    if not found:
+        ctx.bad(f'{f.qualname}:wrong arity is refused', f.node, f'no comparison of len({p}) with len(self.members): tuples of any arity pass check_type', f)
+    # -- struct members
+    ci, res = _analyse_class(m, 'StructOf')
+    ma = res.get('check_type')
+    if ma is None:
+        raise AnchorMissing('StructOf.check_type not found')
+    f, cfg, p = ma.f, ma.cfg, ma.param
+    ctx.analysed(f)
+    diffs = {}
+    for n in body_walk(f.node):
+        if isinstance(n, ast.Assign) and isinstance(n.targets[0], ast.Name) and isinstance(n.value, ast.BinOp) and isinstance(n.value.op, ast.Sub):
+            def txt(e, f=f):
+                return ' '.join(src(o) for o in (origins(e, f.node) if isinstance(e, ast.Name) else [e]))
+            lv, rv = txt(n.value.left), txt(n.value.right)
+            pv = [x for x in (f'({p})', f' {p} ', f'({p}.') ]
+            has_p = lambda s_: any(x in f' {s_} ' for x in pv) or s_ == p   # noqa: E731
+            if has_p(lv) and 'self.members' in rv:
+                diffs['superfluous'] = n.targets[0].id
+            elif 'self.members' in lv and has_p(rv):
+                diffs['missing'] = n.targets[0].id
+    for what in ('superfluous', 'missing'):
+        name = diffs.get(what)
+        key = f'{f.qualname}:{what} members are refused'
+        if name is None:
+            ctx.bad(key, f.node, f'the set difference for {what} struct members is not computed in check_type', f)
+            continue
+        tests = [t for t in cfg.nodes if t.kind == 'test' and any(isinstance(x, ast.Name) and x.id == name for x in ast.walk(t.ast))]
+        ok = bool(tests) and all(_side_never_completes(cfg, t.id, 'T') for t in tests)
+        ctx.check(ok, key, tests[0].ast if tests else f.node, f'`if {name}:` always raises',
+                  f'a struct with {what} members passes check_type: ' + ('unknown keys are dropped silently' if what == 'superfluous' else
+                                                                        'an incomplete struct is returned as valid'), f)
+    # -- ASCII-only strings and embedded NUL
+    ci, res = _analyse_class(m, 'StringType')
+    ma = res.get('__call__')
+    f, cfg, p = ma.f, ma.cfg, ma.param
+    ctx.analysed(f)
+    enc = [c for c in calls_in(f.node) if (call_attr(c) == 'encode' and c.args and isinstance(c.args[0], ast.Constant) and c.args[0].value == 'ascii')
+           or call_attr(c) == 'isascii']
+    key = f'{f.qualname}:non-ASCII text is refused unless isUTF8'
+    if not enc:
+        ctx.bad(key, f.node, "no `.encode('ascii')` / `.isascii()` probe of the value: an ASCII-only string type accepts any text", f)
+    for c in enc:
+        guards = [t for t in cfg.nodes if t.kind == 'test' and 'self.isUTF8' in src(t.ast)]
+        ids = set(cfg.node_of(c))
+        right_side = False
+        for t in guards:
+            neg = isinstance(t.ast, ast.UnaryOp) and isinstance(t.ast.op, ast.Not)
+            ascii_label = 'T' if neg else 'F'           # the side on which isUTF8 is false
+            other = 'F' if neg else 'T'
+            if ids <= cfg.reach([t.id], labels={ascii_label}, avoid=[t.id]) and not (ids & cfg.reach([t.id], labels={other}, avoid=[t.id])):
+                right_side = True
+        if call_attr(c) == 'encode':
+            h = covering_handler(c, [UnicodeEncodeError], f.module)
+            refuses = h is not None and contains_raise(h.body)
+        else:
+            refuses = True
+        ctx.check(right_side and refuses, key, c, 'probed exactly when isUTF8 is false, the failure raises a bad-value error',
+                  f'`{src(c)}`: ' + ('the ASCII probe does not run exactly on the `not self.isUTF8` side' if not right_side else
+                                     'a failing probe does not end in a raise') + ': an ASCII-only type accepts non-ASCII text (or a UTF-8 type refuses it)', f)
+    nul = [t for t in cfg.nodes if t.kind == 'test' and any(op == 'in' and l in ("'\\x00'", "'\\0'") and r == p for l, op, r in compare_ops(t.ast))]
+    ctx.check(bool(nul) and all(_side_never_completes(cfg, t.id, 'T') for t in nul), f'{f.qualname}:embedded NUL is refused', nul[0].ast if nul else f.node,
+              "`'\\0' in value` always raises", 'a string with an embedded NUL character is accepted', f)
+    # -- integral transport value of a scaled integer
+    ci, res = _analyse_class(m, 'ScaledInteger')
+    ma = res.get('import_value')
+    if ma is not None:
+        f, cfg, p = ma.f, ma.cfg, ma.param
+        ctx.analysed(f)
+        ok = False
+        for t in cfg.nodes:
+            if t.kind != 'test':
+                continue
+            for sub in (t.ast.values if isinstance(t.ast, ast.BoolOp) else [t.ast]):
+                for l, op, r in compare_ops(sub):
+                    if op in ('!=', '==') and p in (l, r):
+                        other = r if l == p else l
+                        o = origins(ast.parse(other, mode='eval').body, f.node) if other.isidentifier() else []
+                        from_int = other.startswith('int(') or any(isinstance(x, ast.Call) and dotted(x.func) == 'int' for x in o)
+                        if from_int and _side_never_completes(cfg, t.id, 'T' if op == '!=' else 'F'):
+                            ok = True
+        ctx.check(ok, f'{f.qualname}:non-integral transport value is refused', f.node, 'int(value) != value raises',
+                  'the transported value of a scaled integer is not compared with its integer conversion (or the unequal side does not raise): '
+                  'a fraction or a numeric string from the wire is accepted and scaled', f)
+    # -- error class of a failing member: RangeError stays RangeError
+    for cname in ('ArrayOf', 'TupleOf', 'StructOf'):
+        ci, res = _analyse_class(m, cname)
+        for meth, ma in res.items():
+            for n in body_walk(ma.f.node):
+                if isinstance(n, ast.IfExp) and isinstance(n.test, ast.Call) and dotted(n.test.func) == 'isinstance' and len(n.test.args) == 2:
+                    cls = dotted(n.test.args[1])
+                    if cls in ('RangeError', 'WrongTypeError'):
+                        ctx.check(dotted(n.body) == cls, f'{ma.f.qualname}:a failing member keeps its error class', n, f'`{src(n)}`',
+                                  f'`{src(n)}` selects {dotted(n.body)} when the member raised {cls}: out-of-range elements are reported as wrong type and vice versa', ma.f)
+    # -- IntRange returns the int() conversion, clamp is not the identity
+    ci, res = _analyse_class(m, 'IntRange')
+    ma = res.get('__call__')
+    f = ma.f
+    for r in [n for n in body_walk(f.node) if isinstance(n, ast.Return) and n.value is not None and not _in_lazy_branch(n)]:
+        o = origins(r.value, f.node) if isinstance(r.value, ast.Name) else [r.value]
+        ok = any(isinstance(x, ast.Call) and dotted(x.func) == 'int' for x in o)
+        ctx.check(ok, f'{f.qualname}:returns an int', r, 'the returned value is the result of int()',
+                  f'`{src(r)}` returns {[src(x) for x in o]}, not an int() conversion: a whole float (3.0) offered to an integer type stays a float '
+                  '(and is exported as a JSON number with a fraction part)', f)
+    cl = m.func('frappy.lib.clamp')
+    for r in [n for n in body_walk(cl.node) if isinstance(n, ast.Return) and n.value is not None]:
+        v = r.value
+        if isinstance(v, ast.Subscript) and isinstance(v.value, (ast.List, ast.Tuple)):
+            ctx.bad(f'{cl.qualname}:is a clamp', r, f'`{src(v)}` indexes the unsorted triple: clamp() returns the value unchanged, infinities and values '
+                    'inside the tolerance band are returned outside the limits', cl)
+        else:
+            ctx.ok(f'{cl.qualname}:is a clamp', r, f'`{src(v)}`', cl)
